@@ -82,6 +82,8 @@ impl Session {
                 let before = self.r.next_sequence();
                 self.inputs += 1;
                 self.arrived.insert(tag, seq);
+                // another payload that arrived with this number and is still waiting (inserted, neither drained nor cleared)
+                let waiting: Option<u32> = self.outstanding.iter().find(|(_, &s)| s == seq).map(|(&t, _)| t);
                 let res = match catch(std::panic::AssertUnwindSafe(|| self.r.process(seq, tag))) {
                     Ok(r) => r,
                     Err(_) => {
@@ -101,10 +103,30 @@ impl Session {
                                 format!("seq {} released while next={}", seq, before),
                             );
                         }
+                        // C09 "never releases a message ... twice ... accounts for every input as released, still
+                        // buffered, or reported duplicate": a copy of a number whose first arrival is still waiting
+                        // is a duplicate; released, the number goes out twice (now and when the waiting one is drained)
+                        if let Some(w) = waiting {
+                            out.fail(
+                                "C09:never-twice",
+                                "copy-of-waiting-number-released",
+                                format!(
+                                    "process({}, tag {}) released as next-in-sequence while tag {} that arrived with the same number {} is still waiting undrained: number {} is released twice, the waiting copy is stranded behind next={}",
+                                    seq, tag, w, seq, seq, self.r.next_sequence()
+                                ),
+                            );
+                        }
                         self.on_release(m, before, "process", out);
                         format!("next {}", m)
                     }
                     ProcessResult::OutOfSequenceMessageInserted => {
+                        if let Some(w) = waiting {
+                            out.fail(
+                                "C09:never-twice",
+                                "copy-of-waiting-number-buffered",
+                                format!("process({}, tag {}) buffered beside tag {} that is still waiting with the same number", seq, tag, w),
+                            );
+                        }
                         self.outstanding.insert(tag, seq);
                         "ins".into()
                     }
@@ -408,6 +430,12 @@ fn random_soup(out: &mut Out, rng: &mut Rng, len: usize) {
             // a process with a number around the expected one, occasionally anywhere
             let seq = if rng.chance(1, 20) {
                 rng.below(256) as u8
+            } else if !sess.outstanding.is_empty() && rng.chance(1, 6) {
+                // a redelivered copy of a number that is still waiting (preferably the expected one, undrained)
+                let nx = sess.next();
+                let v: Vec<u8> = sess.outstanding.values().cloned().collect();
+                out.count("soup:copy-of-waiting");
+                if v.contains(&nx) && rng.chance(1, 2) { nx } else { *rng.pick(&v) }
             } else {
                 let d = rng.below(2 * window + 1) as i64 - window as i64 / 2;
                 (sess.next() as i64 + d).rem_euclid(256) as u8
@@ -487,7 +515,112 @@ fn saturation_case(out: &mut Out, rng: &mut Rng, e: u8, variant: u64) {
     out.count("saturation");
 }
 
-pub const RULE: &str = "cases = (a) every permutation of a contiguous run of length n<=Lp from every start 0..=255, drained after each arrival; (b) every op sequence of length <=Ls over {process(next-2..next+2), drain, reset, set_next(0|254|255)} from starts {0,1,254,255}; (c) random permutations of runs up to 256 long from random starts; (d) random op soups with duplicates, stale and far-ahead numbers; (e) long duplicate-free streams (260..2000 messages, sequence numbers wrapping) delivered with bounded displacement so that fewer than 256 numbers are outstanding, incl. the zig-zag order 2,4,1,6,3,8,5,… that never lets the buffer empty (promptness oracle); (f) saturation: all 256 sequence values waiting at once (255 ahead + the expected one and late copies of it / the expected value moved onto a buffered number / reset with everything waiting), drained to the end. A case is non-trivial if it is a permuted (not sorted) run, or a soup with at least two process calls; distinct = distinct op-line sequences (hashed).";
+/// (g) redelivery without intermediate drain: a contiguous run of `perm.len()` <= 256 numbers from `e` fed in the
+/// order `perm`; `drain` is called after an arrival only according to `policy` (0 never before the end, 1 all
+/// after one arrival in four, 2 a single drain after every second arrival, 3 after every arrival), so in-sequence
+/// arrivals pile up behind a waiting successor; after an arrival, with chance 1/`copy_every`, a copy (fresh
+/// payload) of a number that is still WAITING is delivered - preferably the one that is expected next and
+/// not yet drained. Oracle: every copy is reported duplicate (session clause C09:never-twice), the first
+/// arrivals are released exactly once, in order, and the resequencer ends empty.
+pub fn nodrain_case(out: &mut Out, rng: &mut Rng, e: u8, perm: &[usize], policy: u64, copy_every: u64, kind: &str) {
+    let mut sess = Session::new();
+    begin(&mut sess, out);
+    op(&mut sess, out, &format!("reseq S {}", e));
+    let n = perm.len();
+    let mut copies = 0u64;
+    let mut copy_tag = 5000u32;
+    for (k, &i) in perm.iter().enumerate() {
+        let seq = e.wrapping_add(i as u8);
+        op(&mut sess, out, &format!("reseq P {} {}", seq, 1000 + i));
+        match policy {
+            0 => {}
+            1 => {
+                if rng.chance(1, 4) {
+                    sess.drain_all(out);
+                }
+            }
+            2 => {
+                if k % 2 == 1 {
+                    op(&mut sess, out, "reseq D");
+                }
+            }
+            _ => {
+                sess.drain_all(out);
+            }
+        }
+        while !sess.outstanding.is_empty() && rng.chance(1, copy_every) {
+            let nx = sess.next();
+            let v: Vec<u8> = sess.outstanding.values().cloned().collect();
+            let s = if v.contains(&nx) && rng.chance(2, 3) { nx } else { *rng.pick(&v) };
+            copy_tag += 1;
+            copies += 1;
+            let a = op(&mut sess, out, &format!("reseq P {} {}", s, copy_tag));
+            out.count(&format!("redelivery:{}{}", if s == nx { "expected-waiting:" } else { "waiting:" }, a.split(' ').next().unwrap()));
+        }
+    }
+    let fin = sess.drain_all(out);
+    let nx = op(&mut sess, out, "reseq N");
+    let want: Vec<u32> = (0..n as u32).map(|i| 1000 + i).collect();
+    if sess.released != want {
+        let firstbad = sess.released.iter().zip(want.iter()).position(|(a, b)| a != b).unwrap_or(sess.released.len().min(want.len()));
+        out.fail(
+            "contiguous-run-released-in-order",
+            "redelivery-without-drain",
+            format!(
+                "e={} n={} drain-policy={} copies={}: released {} payloads, first deviation at position {} (released {:?}, wanted {:?})",
+                e, n, policy, copies, sess.released.len(), firstbad, sess.released.get(firstbad), want.get(firstbad)
+            ),
+        );
+    }
+    if sess.dups != copies {
+        out.fail(
+            "C09:never-twice",
+            "copy-of-waiting-number-not-reported-duplicate",
+            format!("e={} n={} drain-policy={}: {} copies of waiting numbers delivered, {} reported duplicate", e, n, policy, copies, sess.dups),
+        );
+    }
+    if fin != "empty" || nx != format!("next={}", e.wrapping_add(n as u8)) {
+        out.fail("contiguous-run-ends-empty", "redelivery-without-drain", format!("e={} n={} last={} {}", e, n, fin, nx));
+    }
+    sess.flush_check(out);
+    out.nontrivial();
+    out.count(&format!("redelivery:{}:policy{}", kind, policy));
+}
+
+/// scripted: out-of-order buffering begins at expected value `o` (number o+k+1 arrives early), the k+1 numbers
+/// o..=o+k arrive in order and are released by `process` WITHOUT a drain in between, so o+k+1 is now expected
+/// and still waiting; a redelivered copy of it arrives: it must be reported duplicate, and the drain then
+/// releases the first arrival. (`o=255 k=1` is `set_next_sequence(255); process(1); process(255); process(0);
+/// process(1)`.)
+fn redelivery_scripted(out: &mut Out, o: u8, k: usize) {
+    let mut sess = Session::new();
+    begin(&mut sess, out);
+    op(&mut sess, out, &format!("reseq S {}", o));
+    let early = o.wrapping_add(k as u8).wrapping_add(1);
+    op(&mut sess, out, &format!("reseq P {} {}", early, 1000 + k + 1));
+    for i in 0..=k {
+        op(&mut sess, out, &format!("reseq P {} {}", o.wrapping_add(i as u8), 1000 + i));
+    }
+    let a = op(&mut sess, out, &format!("reseq P {} {}", early, 5001));
+    let fin = sess.drain_all(out);
+    let nx = op(&mut sess, out, "reseq N");
+    let want: Vec<u32> = (0..=(k as u32 + 1)).map(|i| 1000 + i).collect();
+    if a != "dup" || sess.released != want {
+        out.fail(
+            "contiguous-run-released-in-order",
+            "redelivered-copy-of-expected-waiting-number",
+            format!("origin={} k={}: the copy of {} was answered `{}`; released tail {:?}, wanted to end with {:?}", o, k, early, a, sess.released.iter().rev().take(3).collect::<Vec<_>>(), want.iter().rev().take(3).collect::<Vec<_>>()),
+        );
+    }
+    if fin != "empty" || nx != format!("next={}", early.wrapping_add(1)) {
+        out.fail("contiguous-run-ends-empty", "redelivered-copy-of-expected-waiting-number", format!("origin={} k={} last={} {}", o, k, fin, nx));
+    }
+    sess.flush_check(out);
+    out.nontrivial();
+    out.count("redelivery:scripted");
+}
+
+pub const RULE: &str = "cases = (a) every permutation of a contiguous run of length n<=Lp from every start 0..=255, drained after each arrival; (b) every op sequence of length <=Ls over {process(next-2..next+2), drain, reset, set_next(0|254|255)} from starts {0,1,254,255}; (c) random permutations of runs up to 256 long from random starts; (d) random op soups with duplicates, stale and far-ahead numbers; (e) long duplicate-free streams (260..2000 messages, sequence numbers wrapping) delivered with bounded displacement so that fewer than 256 numbers are outstanding, incl. the zig-zag order 2,4,1,6,3,8,5,… that never lets the buffer empty (promptness oracle); (f) saturation: all 256 sequence values waiting at once (255 ahead + the expected one and late copies of it / the expected value moved onto a buffered number / reset with everything waiting), drained to the end; (g) redelivery WITHOUT intermediate drain: scripted - for every origin 0..=255 the number origin+k+1 arrives early, origin..origin+k arrive in order and are released by process() with no drain call, then a copy of the now expected, still waiting number arrives (k in 0..=3 from all 256 origins, k in {57,128,200,254} from 16 origins; must be answered duplicate, the first arrival drained afterwards) - and random: permuted runs up to 256 long from starts that make the expected value wrap, drain policy never / sometimes all / single drains / after every arrival, copies (fresh payload) of numbers that are still waiting delivered in between, preferably of the expected undrained one; the random soups of (d) deliver such copies too (session clause C09:never-twice: a process() call carrying the number of a message that is still waiting is neither released nor buffered beside it). A case is non-trivial if it is a permuted (not sorted) run, or a soup with at least two process calls; distinct = distinct op-line sequences (hashed).";
 
 pub fn run(args: &Args, out: &mut Out) -> &'static str {
     let mut rng = Rng::new(args.seed);
@@ -591,6 +724,47 @@ pub fn run(args: &Args, out: &mut Out) -> &'static str {
         let e = rng.below(256) as u8;
         let v = rng.below(12);
         saturation_case(out, &mut rng, e, v);
+    }
+    // (g)
+    for o in 0..=255u8 {
+        for k in 0..=3usize {
+            redelivery_scripted(out, o, k);
+        }
+    }
+    for o in [0u8, 1, 2, 55, 56, 57, 58, 127, 128, 129, 199, 200, 253, 254, 255, 100] {
+        for k in [57usize, 128, 200, 254] {
+            redelivery_scripted(out, o, k);
+        }
+    }
+    out.exhaustive.push("redelivered copy of the expected, still waiting number after k+1 undrained in-order arrivals: k in 0..=3 from all 256 origins".to_string());
+    for j in 0..(if args.thorough() { 3000u64 } else { 240 }) {
+        let n = match j % 4 {
+            0 => 256,
+            1 => rng.range(2, 12) as usize,
+            _ => rng.range(2, 256) as usize,
+        };
+        // starts that make the expected value wrap past 255 inside the run
+        let e = if j % 3 == 0 { rng.below(256) as u8 } else { (256 - rng.range(1, n as u64) as usize) as u8 };
+        let mut p: Vec<usize> = (0..n).collect();
+        match j % 5 {
+            0 => rng.shuffle(&mut p),
+            1 => {
+                // one early arrival, the rest in order
+                let a = rng.range(1, n as u64 - 1) as usize;
+                let x = p.remove(a);
+                p.insert(0, x);
+            }
+            _ => {
+                let d = rng.range(1, 12) as usize;
+                for i in 0..n {
+                    let t = (i + rng.below(d as u64 + 1) as usize).min(n - 1);
+                    p.swap(i, t);
+                }
+            }
+        }
+        let policy = rng.below(4);
+        let ce = *rng.pick(&[2u64, 3, 8]);
+        nodrain_case(out, &mut rng, e, &p, policy, ce, "random");
     }
     // (d)
     for _ in 0..nsoup {
